@@ -167,10 +167,14 @@ def gen_samples(rng, ref, k, kind, rcmode, huge=None):
                     t = t[:rng.randint(len(t) // 2, len(t))]              # the tail of each contig unmatched
                 recs.append(M.rc(t) if rcmode and rng.random() < 0.5 else t)
                 if si == 0:
-                    # a second copy with other differences: ambiguity codes spread over the whole length
+                    # the unchanged contig plus a copy that differs at every (h+1)-th base: every reference k-mer is present, and one
+                    # centre in every h+1 carries an ambiguity code whose neighbours all match - wherever a writer cuts its work
+                    # (every 2^16 matches, say), a non-reference middle base sits next to the cut
+                    recs.append(c)
                     t2 = list(c)
-                    for _ in range(len(t2) // 40):
-                        t2[rng.randrange(len(t2))] = rng.choice('ACGT')
+                    r_ = rng.randrange(h + 1)
+                    for i_ in range(r_, len(t2), h + 1):
+                        t2[i_] = {'A': 'C', 'C': 'G', 'G': 'T', 'T': 'A'}[t2[i_]]
                     recs.append(''.join(t2))
             samples.append(recs)
         return samples
